@@ -3268,7 +3268,9 @@ impl Scenario for Sc {
             Kind::FixedQueueDebug => (4_000, 120_000),
             Kind::FastVecU8 => (6_000, 180_000),
             Kind::ZoSorted => (3_000, 90_000),
-            Kind::Sortable | Kind::FixedLen | Kind::BitPacked32 | Kind::BitPacked64 | Kind::Advanced(_) => (4_000, 120_000),
+            // level 3 (prefix/substring sharing between entries) has by far the most state per push
+            Kind::Advanced(3) => (40_000, 1_200_000),
+            Kind::Sortable | Kind::FixedLen | Kind::BitPacked32 | Kind::BitPacked64 | Kind::Advanced(_) => (8_000, 240_000),
             _ => (10_000, 300_000),
         };
         match tier {
